@@ -183,6 +183,31 @@ func dischargeAll(x *Exec, obls []*Obligation, timeout time.Duration, all bool) 
 		}(i)
 	}
 	wg.Wait()
+	// An obligation left undecided is tried once more with three times the time and little
+	// competition for the cores: a loaded machine must not turn a 3-second proof into an alarm.
+	var again []int
+	for i := range obls {
+		if queries[i] != nil && results[i].Status == "unknown" && results[i].Solver != "disagreement" && !obls[i].Canary && !obls[i].Cover {
+			again = append(again, i)
+		}
+	}
+	if len(again) > 0 && len(again) <= 40 && timeout <= 20*time.Second {
+		sem2 := make(chan struct{}, 4)
+		for _, i := range again {
+			wg.Add(1)
+			go func(i int) {
+				defer wg.Done()
+				sem2 <- struct{}{}
+				defer func() { <-sem2 }()
+				r2 := solveQuery(queries[i], 3*timeout, false)
+				if r2.Status == "unsat" || r2.Status == "sat" {
+					r2.Tried = append(append([]string{}, results[i].Tried...), append([]string{"retry:"}, r2.Tried...)...)
+					results[i] = r2
+				}
+			}(i)
+		}
+		wg.Wait()
+	}
 	return results
 }
 
